@@ -1,7 +1,7 @@
 \* comments planted in abstract APIs, up to 2 tokens
 CONSTANTS
   Fns = {"embed"}
-  Alphabet = {"w3", "long", "sp", "nl", "tab", "li", "colon", "quote", "tquote", "bslash"}
+  Alphabet = {"w3", "sp", "nl", "quote", "tquote", "bslash"}
   MinLen = 0
   MaxLen = 2
   Widths = {10, 20, 40, 72}
